@@ -13,6 +13,8 @@ from . import rustsrc
 
 XCHECK_N = int(os.environ.get('VERIF_XCHECK', '4'))          # cross-checked queries per worker process and exploration (0 = off)
 XCHECK_STEP = int(os.environ.get('VERIF_XCHECK_STEP', '97'))
+_MUTATOR = re.compile(r'^(Vec|VecDeque|String|HashMap|HashSet|IndexMap|IndexSet|BTreeMap|BTreeSet)::(retain\w*|dedup\w*|truncate|clear|drain\w*|sort\w*|reverse|swap\w*|remove\w*|shift_remove\w*|insert\w*|push\w*|pop\w*|extend\w*|append|split_off|resize\w*|rotate\w*|fill\w*|entry|get_mut|iter_mut|values_mut|take)$')
+
 MAX_DEPTH = 400          # modelled call-stack limit (frames); exceeding it is a Panic('stack-overflow')
 SOLVER_TIMEOUT_MS = int(os.environ.get('MIRSYM_SOLVER_TIMEOUT_MS', '60000'))
 
@@ -995,10 +997,25 @@ class Interp:
         if fb is not None and (self.allow is None or any(re.search(a, fb.name) for a in self.allow)):
             return self.run_body(fb, args)
         if self.uc:
+            # havoc'ing a call that MUTATES a tracked container would silently keep the old contents (e.g. an unmodelled Vec::retain becomes a no-op):
+            # that is not an over-approximation, so it must not be guessed
+            mm = _MUTATOR.match(key)
+            if mm and args and self._tracked_container(args[0]):
+                raise Unsupported('call %s mutates a tracked %s and has no model  [key %s]' % (callee, mm.group(1), key))
             res = LazyV('ret:' + key)
             self.trace.append((callee, args, res, tuple(self.stack)))
             return res
         raise Unsupported('call %s  [key %s]' % (callee, key))
+
+    def _tracked_container(self, a):
+        n = 0
+        while isinstance(a, RefV) and n < 8:
+            try:
+                a = a.get()
+            except Exception:
+                return False
+            n += 1
+        return isinstance(a, (VecV, MapV, StringV))
 
     def _any_lazy(self, args):
         for a in args:
